@@ -3,6 +3,7 @@
 -/
 import PyModeS.Proofs.Bits
 import PyModeS.Model.Misc
+import PyModeS.Proofs.Uplink.Loop
 namespace PyModeS.C18
 
 /-- `uplink_fields` reports the same PR and interrogator code as `pr` / `ic` for UF 11, for every frame. -/
@@ -16,5 +17,63 @@ theorem uplink_other_uf (bits : Bits) (h11 : ufB bits ≠ 11) (hr : isRollCall (
     uplinkBds bits = none ∧ uplinkPr bits = none ∧ uplinkIc bits = none ∧ uplinkLockout bits = none := by
   unfold uplinkBds uplinkPr uplinkIc uplinkLockout
   simp [h11, hr]
+
+/-! ### uplink address recovery (`uplink_icao`) inverts the Annex 10 uplink AP encoder
+
+  Uplink AP (Annex 10 vol IV 3.1.2.3.3.2): `AP = parity(data) xor a'` where `a'` is the top
+  24 coefficients of `A(x)·G(x)`.  The definitions live in `Proofs/Uplink/Encoder.lean`
+  (they are needed by the proofs); they are restated here by `rfl`. -/
+
+/-- carry-less multiplication: xor of `b` shifted to every set bit of `a` -/
+theorem clmul_def (a b : Nat) :
+    Uplink.clmul a b = (List.range (a.log2 + 1)).foldl
+      (fun acc i => if a.testBit i then acc ^^^ (b <<< i) else acc) 0 := rfl
+
+theorem uplinkAP_def (d : Bits) (A : Nat) :
+    Uplink.uplinkAP d A =
+      Spec.remH (d ++ List.replicate 24 false) ^^^ (Uplink.clmul A Spec.G >>> 24) := rfl
+
+theorem uplinkFrame_def (d : Bits) (A : Nat) :
+    Uplink.uplinkFrame d A = CRC.hexOfBits (d ++ natToBits 24 (Uplink.uplinkAP d A)) := rfl
+
+open Polynomial in
+/-- `clmul` is multiplication in `(ZMod 2)[X]` (coefficients = binary digits) -/
+theorem clmul_is_poly_mul (a b : Nat) :
+    CRC.natPoly (Uplink.clmul a b) = CRC.natPoly a * CRC.natPoly b :=
+  Uplink.natPoly_clmul a b
+
+/-- the encoded interrogation is a hex string carrying exactly `data ‖ AP`, and AP fits 24 bits -/
+theorem uplinkFrame_bits (d : Bits) (A : Nat) (hA : A < 2 ^ 24) (h4 : d.length % 4 = 0) :
+    hex2binM (Uplink.uplinkFrame d A) = d ++ natToBits 24 (Uplink.uplinkAP d A) ∧
+    (∀ c ∈ Uplink.uplinkFrame d A, (hexVal? c).isSome) ∧
+    (Uplink.uplinkFrame d A).length * 4 = d.length + 24 ∧ Uplink.uplinkAP d A < 2 ^ 24 :=
+  ⟨CRC.hex2binM_hexOfBits _ (by simp; omega), CRC.hexOfBits_isHex _,
+    (Uplink.hexFrame_spec d _ (Uplink.uplinkAP_lt d hA) h4).1, Uplink.uplinkAP_lt d hA⟩
+
+/-- **Round trip**: for every payload `d` of `n − 24` bits (`n` a multiple of 4, `n ≥ 56`: the
+    56- and 112-bit interrogations and every other length the code accepts) and every address
+    `A < 2^24`, `uplink_icao` applied to the encoded interrogation returns `"%06X" % A`. -/
+theorem uplink_icao_roundtrip (d : Bits) (A : Nat) (hA : A < 2 ^ 24) (h4 : d.length % 4 = 0)
+    (hd : 32 ≤ d.length) : uplinkIcao (Uplink.uplinkFrame d A) = hex6 A :=
+  Uplink.uplinkIcao_roundtrip d A hA h4 hd
+
+/-- the loop itself, on numbers: started on `(int(data), AP, 0)` with the generator aligned at the
+    top of the `(n−24)`-bit register, it leaves `A` in `ad >> 2` -/
+theorem uplink_loop_address (d : Bits) (A : Nat) (hA : A < 2 ^ 24) (hd : 32 ≤ d.length) :
+    (uplinkLoop (d.length + 24) (Spec.G <<< (d.length + 24 - 49)) (d.length + 24)
+      (bin2int d, Uplink.uplinkAP d A, 0)).2.2 >>> 2 = A :=
+  Uplink.uplinkLoop_address d A hA hd
+
+/-- 56-, 112- and 72-bit interrogations (the three frames were also fed to the real
+    `uplink_icao`, which returns ABCDEF, 400940, 00A0FF) -/
+example : Uplink.uplinkFrame (hex2bin "5D484FDE") 0xABCDEF = "5D484FDE6F3A97".toList ∧
+    uplinkIcao "5D484FDE6F3A97".toList = "ABCDEF".toList ∧
+    Uplink.uplinkFrame (hex2bin "A0001839CA380031580000") 0x400940
+      = "A0001839CA3800315800004BB2E4".toList ∧
+    uplinkIcao "A0001839CA3800315800004BB2E4".toList = "400940".toList ∧
+    uplinkIcao (Uplink.uplinkFrame (hex2bin "20000F1F0123") 0x00A0FF) = "00A0FF".toList := by
+  decide +kernel
+example : (hex2bin "5D484FDE").length % 4 = 0 ∧ 32 ≤ (hex2bin "5D484FDE").length ∧
+    (0xABCDEF : Nat) < 2 ^ 24 ∧ Uplink.clmul 0xABCDEF Spec.G = 225891465055895 := by decide +kernel
 
 end PyModeS.C18
